@@ -151,6 +151,7 @@ pub fn run(ctx: &Ctx) {
     if ctx.tier == Tier::Thorough {
         let io = InOpts { budget: 120_000, ..Default::default() };
         ctx.search("stream-long", 16, 300, &|| stream_case_strategy(co, io, true), check);
+        crate::fuzzrun::campaign(ctx, "fz_encode", 8, crate::fuzzrun::runs(60_000), 24_000);
     }
 }
 
